@@ -227,11 +227,11 @@ bool Driver::runCFrontEnd(const CommandOptions& cmdOpts, Files& files)
         parseOpts.setCommentMode(ParseOptions::CommentMode::KeepAll);
     else if (cmdOpts.commentMode_ == "kdo")
         parseOpts.setCommentMode(ParseOptions::CommentMode::KeepDocumentationOnly);
-    if (cmdOpts.commentMode_ == "d")
+    else if (cmdOpts.commentMode_ == "d")
         parseOpts.setCommentMode(ParseOptions::CommentMode::Discard);
     else {
         std::cerr << kCnip << "unrecognized comment mode: "
-                  << cmdOpts.disambigMode_ << std::endl;
+                  << cmdOpts.commentMode_ << std::endl;
         return false;
     }
 
